@@ -1122,3 +1122,43 @@ mut("bloom_probes_clamped_only_in_the_loop", ["C14"], "AGR-1", patch="bloom_prob
     note="header byte says 31..44 probes, 30 are set: the reader reports added keys as absent for bits_per_key >= 45")
 mut("l0_count_hoisted_out_of_wait_loop", ["C09"], "LCK-4c", patch="l0_count_hoisted_out_of_wait_loop.diff",
     note="the level-0 file count is read once before the stall loop: a writer stalled on 12 level-0 files is never released")
+
+# ---- 30 behaviour-preserving refactorings written by two independent sub-agents (given only the instruction to keep behaviour
+#      unchanged; suite passing with each): every check must stay silent on each of them
+ALL = ['C%02d' % i for i in range(1, 18)]
+
+
+def benign_patch(name, patch, note=""):
+    M.append(dict(name=name, kind="benign", props=ALL, expect=None, file=None, old=None, new=None, patch=patch, note=note, suite=True))
+
+
+benign_patch("refactor_db_get_cloned_and_then", "benign/set1_refactor01.diff", note='DB::get: match on Option -> .cloned(); result match -> and_then/ok_or')
+benign_patch("refactor_apply_changes_loop_and_if_let_front", "benign/set1_refactor02.diff", note='DB::apply_changes: while -> loop/break (De Morgan); is_empty+front().unwrap() -> if let Some')
+benign_patch("refactor_make_room_match_on_wal_writer", "benign/set1_refactor03.diff", note='DB::make_room_for_write: is_err/err().unwrap()/unwrap() -> one match')
+benign_patch("refactor_gc_if_let_extend_eq_some", "benign/set1_refactor04.diff", note='DB::remove_obsolete_files: is_some+clone().unwrap() -> if let; insert loop -> extend; match -> == Some(x)')
+benign_patch("refactor_writer_min_and_block_type_helper", "benign/set1_refactor05.diff", note='LogWriter::append: if -> cmp::min; block type selection extracted into a helper')
+benign_patch("refactor_reader_if_let_err_to_match", "benign/set1_refactor06.diff", note='LogReader::read_record: if let Err .. else unwrap -> match')
+benign_patch("refactor_compact_tables_smallest_snapshot_local", "benign/set1_refactor07.diff", note='compact_tables: smallest snapshot selected into a local; CompactionState::new hoisted')
+benign_patch("refactor_open_output_file_block_expression", "benign/set1_refactor08.diff", note='CompactionState::open_compaction_output_file: deferred init -> block expression')
+benign_patch("refactor_compact_range_enumerate_truncate_after_loop", "benign/set1_refactor09.diff", note='VersionSet::compact_range: index loop -> enumerate; truncate after the loop via Option')
+benign_patch("refactor_some_file_overlaps_de_morgan_match", "benign/set1_refactor10.diff", note='Version::some_file_overlaps_range: De Morgan; is_none/is_some+unwrap -> match')
+benign_patch("refactor_table_get_match_if_let", "benign/set1_refactor11.diff", note='Table::get: is_none/unwrap -> match; is_some && !unwrap -> if let')
+benign_patch("refactor_table_builder_add_index_entry_helper", "benign/set1_refactor12.diff", note='TableBuilder: duplicated index-entry statements extracted into a helper')
+benign_patch("refactor_set_table_iter_guarded_match", "benign/set1_refactor13.diff", note='FilesEntryIterator::set_table_iter: is_none || unwrap()==len -> guarded match')
+benign_patch("refactor_writer_locals_inlined_renamed", "benign/set1_refactor14.diff", note='writers.rs: single-use local inlined, guard renamed')
+benign_patch("refactor_bloom_new_min_max", "benign/set1_refactor15.diff", note='BloomFilterPolicy::new/create_filter: if/else-if clamp -> cmp::max/min')
+benign_patch("refactor_db_get_capture_order", "benign/set2_refactor01.diff", note='DB::get: version / immutable memtable / memtable captured in a different order under the lock')
+benign_patch("refactor_apply_changes_loop_break", "benign/set2_refactor02.diff", note='DB::apply_changes: while !a && !b -> loop { if a || b { break } }')
+benign_patch("refactor_make_room_operand_swaps", "benign/set2_refactor03.diff", note='DB::make_room_for_write: operand swaps with flipped operators')
+benign_patch("refactor_gc_ok_true_false_arms", "benign/set2_refactor04.diff", note='DB::remove_obsolete_files: Ok(is_dir) => if -> Ok(true)/Ok(false) arms')
+benign_patch("refactor_reader_match_err_ok", "benign/set2_refactor05.diff", note='LogReader::read_record: if let Err/else unwrap -> match')
+benign_patch("refactor_writer_type_by_tuple_match_agent", "benign/set2_refactor06.diff", note='LogWriter::append: if chain -> match on (is_first, is_last)')
+benign_patch("refactor_drop_decision_one_boolean_expression", "benign/set2_refactor07.diff", note='compact_tables: mutable drop flag -> one boolean expression')
+benign_patch("refactor_finish_output_file_match_expression", "benign/set2_refactor08.diff", note='CompactionState::finish_compaction_output_file: mutable Option -> match expression')
+benign_patch("refactor_compact_range_enumerate_single_truncate", "benign/set2_refactor09.diff", note='VersionSet::compact_range: enumerate with a single truncate(len or index+1) after the loop')
+benign_patch("refactor_overlap_tests_de_morgan", "benign/set2_refactor10.diff", note='Version::some_file_overlaps_range / get_overlapping_compaction_inputs: De Morgan')
+benign_patch("refactor_read_block_map_err_question_mark", "benign/set2_refactor11.diff", note='Table::read_block_from_disk: match Err => return -> .map_err(f)?')
+benign_patch("refactor_write_block_single_emit", "benign/set2_refactor12.diff", note='TableBuilder::write_block: slice and compression type selected, one emit call')
+benign_patch("refactor_db_iterator_seek_else_branch", "benign/set2_refactor13.diff", note='DatabaseIterator::seek / seek_to_first: early return -> else branch')
+benign_patch("refactor_writer_temporaries_inlined", "benign/set2_refactor14.diff", note='writers.rs: struct literal and guard temporaries inlined')
+benign_patch("refactor_bloom_min_max_assignments", "benign/set2_refactor15.diff", note='BloomFilterPolicy: cmp::min/max instead of if-assignments')
